@@ -38,6 +38,10 @@ def lineage_steps(lin):
                 steps.append({"op": "del", "k": k})
         steps += [{"op": "rotate"}, {"op": "barrier"}]
     obs = {"op": "getall", "k": nk + 1}
+    if lin.get("exact"):
+        # exact-equality probe: reopen with the max size set to exactly (or one byte around) the size of one of the tables
+        i, delta = lin["exact"]
+        steps += [{"op": "close"}, dict(dbgen.open_step(cfg["thr"], ms, cfg["ratio"]), exactof=i, delta=delta)]
     steps += [obs, {"op": "compact"}, obs, {"op": "compact"}, obs,
               {"op": "put", "k": 2, "v": u.next("late"), "pad": 0}, {"op": "rotate"}, {"op": "barrier"}, {"op": "compact"}, obs, {"op": "close"},
               dbgen.open_step(cfg["thr"], ms, cfg["ratio"]), obs, {"op": "compact"}, obs, {"op": "close"}]
@@ -68,6 +72,9 @@ def run(tier):
     if not thorough:
         rng.shuffle(chosen)
         chosen = [l for l in chosen if l["oldestExcluded"]][:700] + [l for l in chosen if not l["oldestExcluded"]][:900]
+    for n, l in enumerate(chosen):
+        if n % 5 == 0:
+            l["exact"] = [rng.randrange(1, len(l["tabs"]) + 1), rng.choice([-1, 0, 0, 1])]
     cases = [lineage_steps(l) for l in chosen]
     nb = 16
     batches = [("lin-%d" % i, cases[i::nb], False) for i in range(nb) if cases[i::nb]]
